@@ -414,6 +414,18 @@ impl Family for ReplySizes {
 /// 2^24-1 bytes with its empty closing packet): whatever read ends wherever near the request's
 /// packet headers or its last bytes, the request must be served once its last byte is delivered —
 /// the client sends nothing more until it has the reply.
+/// payload sizes whose framed length (4 + payload) is 2^k - 2 .. 2^k + 2: a read can then fill
+/// the server's buffer exactly at the end of the request
+fn pow2_sizes(ks: std::ops::RangeInclusive<u32>) -> Vec<usize> {
+    let mut v = Vec::new();
+    for k in ks {
+        for d in -2i64..=2 {
+            v.push(((1i64 << k) - 4 + d) as usize);
+        }
+    }
+    v
+}
+
 struct LargeRequests {
     cases: Vec<(usize, Vec<usize>)>,
 }
@@ -452,7 +464,7 @@ impl LargeRequests {
 }
 impl Family for LargeRequests {
     fn name(&self) -> String {
-        "large-requests-lock-step".into()
+        format!("large-requests-lock-step-{}-sizes", self.cases.iter().map(|c| c.0).collect::<std::collections::BTreeSet<_>>().len())
     }
     fn len(&self) -> u64 {
         self.cases.len() as u64
@@ -553,6 +565,7 @@ pub fn build(quick: bool) -> Check {
         families.push(Box::new(SmallComps::new(14)));
         families.push(Box::new(ReplySizes::new(30_000)));
         families.push(Box::new(LargeRequests::new(&[70_000, MAXP - 1, MAXP, 2 * MAXP], 1)));
+        families.push(Box::new(LargeRequests::new(&pow2_sizes(12..=17), 0)));
         families.push(Box::new(TwoLargeRequests::new(&[(MAXP + 10, MAXP + 10)])));
     } else {
         families.push(Box::new(Batchings { alpha: a.clone(), len: 5, max_cuts: 0 }));
@@ -561,12 +574,13 @@ pub fn build(quick: bool) -> Check {
         families.push(Box::new(SmallComps::new(15)));
         families.push(Box::new(ReplySizes::new(200_000)));
         families.push(Box::new(LargeRequests::new(&[4092, 70_000, MAXP - 1, MAXP, MAXP + 1, 2 * MAXP - 1, 2 * MAXP, 2 * MAXP + 1], 2)));
+        families.push(Box::new(LargeRequests::new(&pow2_sizes(10..=23), 1)));
         families.push(Box::new(TwoLargeRequests::new(&[(MAXP + 10, MAXP + 10), (MAXP, MAXP), (70_000, 2 * MAXP + 3), (2 * MAXP + 3, MAXP + 1)])));
     }
     Check {
         id: "C12",
         level: "model_checking",
-        rule: "command lists over {query->OK, query->resultset, prepare, execute, long data, close, ping, init db, field list} (after a fixed PREPARE) x all batchings (the client waits for all owed replies at any subset of message boundaries, from lock-step to fully pipelined; it never sends before the greeting) x cut sets of <= 2 positions; plus all 2^n compositions of small pipelined streams; plus a strict lock-step client receiving replies of every size 0..30000 (200000 in thorough) bytes as one cell, and as r rows for every r up to that total with cells of 0, 1, 2, 5, 9, 16, 37, 100, 255, 1000, 1455, 1456, 1459, 1460 and 4000 bytes (output-side buffering thresholds are approached in many strides); plus a strict lock-step client whose request is 70 KB .. 2*(2^24-1) bytes (exact multiples with their empty closing packet included) under <= 1 (thorough: 2) cuts around every packet header and the last six bytes of the request; two multi-packet requests back to back, pipelined, with a cut around every packet header of the second. Invariant at every read(): the flushed output holds a complete reply (strictly decoded) for every message fully delivered so far. A read while the waiting client holds back its bytes is a hang.".into(),
+        rule: "command lists over {query->OK, query->resultset, prepare, execute, long data, close, ping, init db, field list} (after a fixed PREPARE) x all batchings (the client waits for all owed replies at any subset of message boundaries, from lock-step to fully pipelined; it never sends before the greeting) x cut sets of <= 2 positions; plus all 2^n compositions of small pipelined streams; plus a strict lock-step client receiving replies of every size 0..30000 (200000 in thorough) bytes as one cell, and as r rows for every r up to that total with cells of 0, 1, 2, 5, 9, 16, 37, 100, 255, 1000, 1455, 1456, 1459, 1460 and 4000 bytes (output-side buffering thresholds are approached in many strides); plus a strict lock-step client whose request is 70 KB .. 2*(2^24-1) bytes (exact multiples with their empty closing packet included) under <= 1 (thorough: 2) cuts around every packet header and the last six bytes of the request, and requests whose framed length is 2^k-2..2^k+2 for k = 12..17 (thorough 10..23); two multi-packet requests back to back, pipelined, with a cut around every packet header of the second. Invariant at every read(): the flushed output holds a complete reply (strictly decoded) for every message fully delivered so far. A read while the waiting client holds back its bytes is a hang.".into(),
         assumptions: vec!["bytes written but not flushed are invisible to the simulated client".into()],
         bounds: json!({"max_commands": if quick {4} else {5}, "max_cuts": 2}),
         exhaustive: true,
